@@ -110,6 +110,11 @@ struct Config {
     /// operations executed (and checked like any other step) before the search starts: (intent to
     /// ingest in its BFS form, then a pass) pairs — puts committed history under the search root
     prefix_commits: Vec<u8>,
+    /// leave the failing ("poison") intent out of the alphabet: the model's rule "a batch that holds
+    /// the poison fails the pass" presumes the poison is alone on its head, which a configuration
+    /// whose every head also receives honest intents cannot guarantee (the poison may lose a lawful
+    /// footprint conflict instead of failing)
+    no_poison: bool,
 }
 
 impl Config {
@@ -171,6 +176,22 @@ fn single_wl(focus: u8, pol: Pol, other: Pol, depth: usize) -> Config {
         poison: (1, o),
         depth,
         prefix_commits: Vec::new(),
+        no_poison: false,
+    }
+}
+
+/// One worldline whose TWO heads both receive honest intents (a0,b0 → h1 ; a1,b1 → h0), so one pass
+/// commits two heads of the same worldline (no failing intent in this alphabet, see `no_poison`).
+fn split_wl(p1: Pol, p0: Pol, depth: usize) -> Config {
+    Config {
+        name: format!("1wl:split:h1={p1:?}:h0={p0:?}"),
+        worldlines: 1,
+        heads: vec![(1, 0, p0), (1, 1, p1)],
+        route: [(1, 1), (1, 0), (1, 1), (1, 0)],
+        poison: (1, 0),
+        depth,
+        prefix_commits: Vec::new(),
+        no_poison: true,
     }
 }
 
@@ -189,6 +210,7 @@ fn two_wl(p1: Pol, p2: Pol, depth: usize) -> Config {
         poison: (2, 0),
         depth,
         prefix_commits: Vec::new(),
+        no_poison: false,
     }
 }
 
@@ -1009,7 +1031,9 @@ impl Search {
             })
             .collect();
         ops.push(Op::Tick);
-        ops.push(Op::Ingest(Sym { intent: 4, form: 0 }));
+        if !cx.cfg.no_poison {
+            ops.push(Op::Ingest(Sym { intent: 4, form: 0 }));
+        }
         let mut w0 = build_world(&cx.cfg);
         // committed history under the root: each prefix intent is ingested and committed by its own pass
         let mut path0: Vec<String> = Vec::new();
@@ -1522,6 +1546,8 @@ fn configs(r: &Report) -> Vec<Config> {
         }
         v.push(single_wl(0, Pol::Budgeted(1), Pol::Budgeted(1), 2));
         v.push(two_wl(Pol::Budgeted(1), Pol::AcceptAll, 2));
+        // both heads of one worldline commit honest intents in the same pass
+        v.push(split_wl(Pol::AcceptAll, Pol::AcceptAll, 3));
         // two commits already under the root (intent a0, then intent a1, on the focus head): retries of
         // an intent whose commit is NOT the worldline's latest are reached at depth 0
         let mut deep = single_wl(1, Pol::AcceptAll, Pol::AcceptAll, 2);
@@ -1533,12 +1559,14 @@ fn configs(r: &Report) -> Vec<Config> {
         // fairly (a configuration that exhausts its share reports the depth it completed)
         for focus in [1u8, 0u8] {
             for p in POLICIES {
-                v.push(single_wl(focus, p, if focus == 0 { Pol::Budgeted(1) } else { Pol::AcceptAll }, 4));
+                v.push(single_wl(focus, p, if focus == 0 { Pol::Budgeted(1) } else { Pol::AcceptAll }, 5));
             }
         }
         for p1 in POLICIES {
-            v.push(two_wl(p1, if p1 == Pol::AcceptAll { Pol::Budgeted(1) } else { Pol::AcceptAll }, 3));
+            v.push(two_wl(p1, if p1 == Pol::AcceptAll { Pol::Budgeted(1) } else { Pol::AcceptAll }, 4));
         }
+        v.push(split_wl(Pol::AcceptAll, Pol::AcceptAll, 5));
+        v.push(split_wl(Pol::Budgeted(1), Pol::AcceptAll, 4));
         for focus in [1u8, 0u8] {
             let mut deep = single_wl(focus, Pol::AcceptAll, Pol::AcceptAll, 3);
             deep.name = format!("{}:after-two-commits", deep.name);
